@@ -173,7 +173,7 @@ PROPERTY_INFO = {
     "C15": info("exploration",
                 GEN_RULE + "non-trivial = resources were viewed or written through at least one accessor; distinct = distinct operation lists",
                 ["view_resources", "get_mut_resource"],
-                ["view_resources", "get_mut_resource", "clone", "clone_from", "roundtrip_json"], crash="C15"),
+                ["view_resources", "query_resource_views", "get_mut_resource", "clone", "clone_from", "roundtrip_json"], crash="C15"),
     "C16": info("exploration",
                 GEN_RULE + "non-trivial = two worlds were compared and the verdict checked against the models; distinct = distinct operation lists",
                 ["eq_true", "eq_false"],
